@@ -56,6 +56,7 @@ type cacheAPI interface {
 	Snapshot() *ristretto.VerifSnap[*Val]
 	PolicyState() (used, maxCost, sum int64, n int)
 	EstimateLocked(h uint64) int64
+	Estimate(h uint64) int64
 	PolicyCostsLocked() ([]ristretto.VerifKeyCost, int64, int64)
 	Hash(k int) (uint64, uint64)
 }
@@ -87,6 +88,7 @@ func (t *typed[K]) Snapshot() *ristretto.VerifSnap[*Val] {
 }
 func (t *typed[K]) PolicyState() (int64, int64, int64, int) { return t.c.VerifPolicyState() }
 func (t *typed[K]) EstimateLocked(h uint64) int64           { return t.c.VerifEstimateLocked(h) }
+func (t *typed[K]) Estimate(h uint64) int64                 { return t.c.VerifEstimate(h) }
 func (t *typed[K]) PolicyCostsLocked() ([]ristretto.VerifKeyCost, int64, int64) {
 	return t.c.VerifPolicyCostsLocked()
 }
